@@ -429,6 +429,54 @@ Proof.
   simpl. repeat split; [apply accept_sets_session | left; reflexivity].
 Qed.
 
+(* ---------- TrackRequest's index ---------- *)
+Lemma track_index_nonempty c rnd : nonempty rnd = true -> nonempty (track_index c rnd) = true.
+Proof. intro H. destruct c as [s|]; simpl; [destruct (nonempty s) eqn:E; assumption | assumption]. Qed.
+Lemma track_index_custom s rnd : s <> "" -> track_index (Some s) rnd = s.
+Proof. intro H. simpl. apply nonempty_iff in H. rewrite H. reflexivity. Qed.
+Lemma track_index_fallback rnd : track_index (Some "") rnd = rnd /\ track_index None rnd = rnd.
+Proof. split; reflexivity. Qed.
+
+(* with non-empty draws every flow of a reachable state has a non-empty index *)
+Definition nonempty_draws (h : list action) : Prop := forall d, In d (flat_map draws_of h) -> fst d <> "".
+Lemma step_index_nonempty m a :
+  (forall d, In d (draws_of a) -> fst d <> "") ->
+  (forall f, In f (mw_flows m) -> fl_index f <> "") ->
+  forall f, In f (mw_flows (fst (step m a))) -> fl_index f <> "".
+Proof.
+  intros Hd Hm f. destruct a; simpl.
+  - intros [<-|H]; [apply (Hd (idx, rid)); left; reflexivity | apply Hm, H].
+  - destruct (get_session _ _ _ _); simpl; [apply Hm|].
+    intros [<-|H]; [apply (Hd (idx, rid)); left; reflexivity | apply Hm, H].
+  - apply Hm.
+  - apply Hm.
+Qed.
+Lemma run_index_nonempty h : forall m,
+  nonempty_draws h -> (forall f, In f (mw_flows m) -> fl_index f <> "") ->
+  forall f, In f (mw_flows (run m h)) -> fl_index f <> "".
+Proof.
+  induction h as [|a h IH]; intros m Hd Hm; [exact Hm|].
+  unfold run in *; simpl. apply IH.
+  - intros d Hin. apply Hd. simpl. apply in_or_app. right; exact Hin.
+  - apply step_index_nonempty; [|exact Hm]. intros d Hin. apply Hd. simpl. apply in_or_app. left; exact Hin.
+Qed.
+
+(* the hypothesis on f's index is discharged by the draws being non-empty *)
+Theorem interleaving_nonempty_draws cfg t0 hist r j h f :
+  let m := run (init cfg t0) hist in
+  fresh_draws hist -> nonempty_draws hist -> codec_wf (m_tcodec cfg) ->
+  In f (mw_flows m) ->
+  honest_jar m j -> In (m_prefix cfg +++ fl_index f, fl_cookie f) j ->
+  flow_live cfg (mw_clock m) f = true ->
+  r_ok r = true -> response_fresh cfg (mw_clock m) r = true -> r_irt r = fl_req_id f ->
+  let rp := snd (step m (Deliver r j (fl_index f) h)) in
+  rp_status rp = 302 /\ rp_location rp = LUrl (fl_uri f) /\ sets_session rp
+  /\ In (clear_cookie cfg (fl_index f)) (rp_cookies rp).
+Proof.
+  intros m Hfr Hne Hwf Hf. apply interleaving; try assumption.
+  apply (run_index_nonempty hist (init cfg t0) Hne); [intros f0 [] | exact Hf].
+Qed.
+
 (* reachable-state versions of the security theorems *)
 Theorem reachable_session_needs_own_tracking_cookie cfg t0 hist r j relay h :
   let m := run (init cfg t0) hist in
@@ -548,15 +596,12 @@ Proof.
 Qed.
 
 Lemma start_flow_spec cfg now u idx rid :
-  cfg_wf cfg ->
+  cfg_wf cfg -> nonempty idx = true ->
   let o := project (fst (start_flow cfg now u idx rid)) in
   forallb (cookie_flags_ok cfg false) (or_cookies o) && negb (o_sets_session o)
-  && match or_cookies o with
-     | [c] => (oc_kind c =? 1) && String.eqb (or_relay o) (oc_a c) && String.eqb (oc_c c) u
-     | _ => false
-     end = true.
+  && started_flow_ok u o = true.
 Proof.
-  intros (Hage & Hmax & (k & Hk) & _). simpl.
+  intros (Hage & Hmax & (k & Hk) & _) Hne. unfold started_flow_ok. simpl. rewrite Hne.
   unfold cookie_flags_ok; simpl. rewrite !String.eqb_refl, Hage, Z.eqb_refl.
   destruct (m_acs_https cfg); simpl; rewrite Hmax, Hk, sec_shift, Z.eqb_refl; reflexivity.
 Qed.
@@ -674,20 +719,23 @@ Qed.
 
 Lemma model_step_spec m act :
   flows_ok m -> cfg_wf (mw_cfg m) ->
-  match act with Deliver _ j _ _ => jar_ok m j | _ => True end ->
+  match act with
+  | Deliver _ j _ _ => jar_ok m j
+  | Start _ idx _ | Page _ _ idx _ => nonempty idx = true
+  | Advance _ => True
+  end ->
   spec_step m act (project (snd (step m act))) = true.
 Proof.
   intros Hok Hcw Hj. destruct act as [u idx rid | u j idx rid | r j relay h | dt].
   - cbn [spec_step step].
     change (snd (let '(rp, fl) := start_flow (mw_cfg m) (mw_clock m) u idx rid in (issue m (rp_cookies rp) (Some fl), rp)))
       with (fst (start_flow (mw_cfg m) (mw_clock m) u idx rid)).
-    apply start_flow_spec, Hcw.
+    apply start_flow_spec; assumption.
   - cbn [spec_step step]. destruct (get_session _ _ _ _) eqn:Eg.
     + reflexivity.
     + change (snd (let '(rp, fl) := start_flow (mw_cfg m) (mw_clock m) u idx rid in (issue m (rp_cookies rp) (Some fl), rp)))
         with (fst (start_flow (mw_cfg m) (mw_clock m) u idx rid)).
-      pose proof (start_flow_spec (mw_cfg m) (mw_clock m) u idx rid Hcw) as H. cbv zeta in H.
-      apply andb_true_iff in H; destruct H as [H _]. rewrite H. reflexivity.
+      exact (start_flow_spec (mw_cfg m) (mw_clock m) u idx rid Hcw Hj).
   - simpl step. simpl snd. apply deliver_spec; assumption.
   - reflexivity.
 Qed.
@@ -702,8 +750,10 @@ Definition wsrc_ok (cfg : mwcfg) (s : wsrc) : bool :=
   end.
 Definition saction_ok (cfg : mwcfg) (a : saction) : bool :=
   match a with
-  | SPage _ j _ _ | SDeliver _ j _ _ => forallb (fun nv => wsrc_ok cfg (snd nv)) j
-  | _ => true
+  | SPage _ j _ rnd _ => nonempty rnd && forallb (fun nv => wsrc_ok cfg (snd nv)) j
+  | SDeliver _ j _ _ => forallb (fun nv => wsrc_ok cfg (snd nv)) j
+  | SStart _ _ rnd _ => nonempty rnd        (* the random draw is 56 base64url characters *)
+  | SAdvance _ => true
   end.
 
 Definition issued_ok (m : mw) : Prop := forall w, In w (mw_issued m) -> wire_ok m w.
@@ -790,7 +840,10 @@ Proof.
     assert (Hc' : mw_cfg m' = mw_cfg m) by (rewrite Hm'; apply step_cfg).
     apply andb_true_iff. split.
     + rewrite Hrp. apply model_step_spec; try assumption.
-      destruct a; simpl; try exact I. apply resolve_jar_ok; assumption.
+      destruct a as [u c rnd rid | u j c rnd rid | r j relay h | dt]; simpl in *; try exact I.
+      * apply track_index_nonempty, Ha.
+      * apply andb_true_iff in Ha. apply track_index_nonempty, Ha.
+      * apply resolve_jar_ok; assumption.
     + specialize (IH m' obs). rewrite Hw in IH. simpl in IH. apply IH; try assumption.
       * rewrite Hm'. apply step_flows_ok, Hok.
       * rewrite Hc'. exact Hcw.
